@@ -169,7 +169,7 @@ class Obs:
     pass
 
 
-def run_impl(exe, scen_text, reporter, workdir, env=None, timeout=60, nofile=None):
+def run_impl(exe, scen_text, reporter, workdir, env=None, timeout=60, nofile=None, sigint_ignored=False):
     os.makedirs(workdir, exist_ok=True)
     for f in os.listdir(workdir):
         p = os.path.join(workdir, f)
@@ -191,7 +191,10 @@ def run_impl(exe, scen_text, reporter, workdir, env=None, timeout=60, nofile=Non
         if nofile:
             import resource
             resource.setrlimit(resource.RLIMIT_NOFILE, (nofile, nofile))
-    proc = subprocess.Popen([exe, sf, reporter, workdir], stdout=subprocess.PIPE, stderr=subprocess.PIPE, env=e, start_new_session=True, preexec_fn=limits if nofile else None)
+        if sigint_ignored:      # the test program is started the way `nohup` or a shell without job control starts it
+            import signal
+            signal.signal(signal.SIGINT, signal.SIG_IGN)
+    proc = subprocess.Popen([exe, sf, reporter, workdir], stdout=subprocess.PIPE, stderr=subprocess.PIPE, env=e, start_new_session=True, preexec_fn=limits if (nofile or sigint_ignored) else None)
     try:
         out, err = proc.communicate(timeout=timeout)
         o.rc, o.stdout, o.stderr = proc.returncode, out.decode("latin-1"), err.decode("latin-1")
